@@ -235,7 +235,7 @@ from tensora.format import parse_format
 args = {}
 for name, t in spec["inputs"].items():
     fmt = parse_format(t["format"]).unwrap()
-    vals = [float(Fraction(v)) for v in t["vals"]]
+    vals = [-0.0 if v == "-0.0" else float(Fraction(v)) for v in t["vals"]]
     cffi = taco_structure_to_cffi(t["indices"], vals, mode_types=tuple(m.c_int for m in fmt.modes),
                                   dimensions=tuple(t["dimensions"]), mode_ordering=fmt.ordering)
     args[name] = Tensor(cffi)
